@@ -336,6 +336,11 @@ func oddScript(t *rapid.T) []byte {
 	case 4:
 		return append(append(append([]byte{0x41, 0x04}, g...), gy...), 0xac) // P2PK, uncompressed, on the curve
 	case 5:
+		if rapid.Bool().Draw(t, "hybrid") {
+			// hybrid encoding (06/07 by the parity of y) of a point on the curve: valid for
+			// consensus, not one of the compressible special forms
+			return append(append(append([]byte{0x41, 0x06 + gy[31]&1}, g...), gy...), 0xac)
+		}
 		y := append([]byte{}, gy...)
 		y[31] ^= 1
 		return append(append(append([]byte{0x41, 0x04}, g...), y...), 0xac) // P2PK form, uncompressed, off the curve
